@@ -473,3 +473,87 @@ pub fn exact_plan(ctx: &crate::ctx::Ctx, bits: u8, lens: Vec<usize>) -> Vec<(usi
         v
     }
 }
+
+// ------------------------------------------------------------------ far-from-small inputs
+//
+// Lengths far beyond the boundary classes (which stop at 33 machine words): block-wise loops, page-wise
+// decoders, 16-bit / 32-bit offsets and capacity growth only show with several full blocks.  The ladder is
+// geometric in symbols (2^10 .. 2^16, each -1, +0, +1, +100) and in machine words (65 .. 2049 words, each
+// -1, +0, +1 symbol) because block sizes are chosen in either unit.
+
+pub fn huge_lengths_all(bits: u8) -> Vec<usize> {
+    let b = bits as usize;
+    let mut v: Vec<usize> = Vec::new();
+    for k in 10..=16u32 {
+        let p = 1usize << k;
+        v.extend([p - 1, p, p + 1, p + 100]);
+    }
+    for w in [65usize, 100, 129, 257, 300, 513, 1025, 2049] {
+        let n = w * 64 / b;
+        v.extend([n - 1, n, n + 1]);
+    }
+    v.push(683); // the first length whose 6-bit symbols exceed 4096 bits
+    v.push(2731);
+    v.sort_unstable();
+    v.dedup();
+    v
+}
+/// the lengths one run uses: none under the reduced budgets (Miri / memcheck), all of them in the thorough tier
+/// (and under ASan), and in the quick tier a sample of ten that depends on the seed and always holds the largest
+/// class (2^16 symbols) and one length just above 2^15 symbols
+pub fn huge_lengths(ctx: &crate::ctx::Ctx, bits: u8) -> Vec<usize> {
+    if ctx.lite {
+        return vec![];
+    }
+    let all = huge_lengths_all(bits);
+    if ctx.tier == crate::ctx::Tier::Thorough {
+        return all;
+    }
+    let mut v: Vec<usize> = all.iter().copied().enumerate().filter(|(i, _)| (i + ctx.seed as usize) % 5 == 0).map(|(_, n)| n).collect();
+    v.extend([(1 << 15) + 1, (1 << 16) + 100, 4096 + 100, 8192 + 77]);
+    v.sort_unstable();
+    v.dedup();
+    v
+}
+/// Contents that random generation does not produce, chosen by `k`: 0 random; 1 one run of a single non-zero
+/// symbol covering the middle three quarters, random flanks; 2 a single non-zero symbol throughout; 3 a random
+/// block of 4096 symbols repeated; 4 a random block of 64 symbols repeated; 5 blocks of 4096 symbols drawn
+/// alternately from the lower and the upper half of the alphabet; 6 the zero-coded symbol throughout except
+/// the first and last position
+pub fn structured_codes(rng: &mut Rng, a: &Alphabet, n: usize, k: usize) -> Vec<u8> {
+    let codes = a.codes();
+    let nz: Vec<u8> = codes.iter().copied().filter(|c| *c != 0).collect();
+    let pick_nz = |rng: &mut Rng| if nz.is_empty() { codes[0] } else { *rng.pick(&nz) };
+    match k % 7 {
+        0 => rand_codes(rng, a, n),
+        1 => {
+            let mut v = rand_codes(rng, a, n);
+            let c = pick_nz(rng);
+            for x in v.iter_mut().take(n - n / 8).skip(n / 8) {
+                *x = c;
+            }
+            v
+        }
+        2 => vec![pick_nz(rng); n],
+        3 | 4 => {
+            let p = if k % 7 == 3 { 4096 } else { 64 };
+            let block = rand_codes(rng, a, p.min(n.max(1)));
+            (0..n).map(|i| block[i % block.len()]).collect()
+        }
+        5 => {
+            let mut sorted = codes.clone();
+            sorted.sort_unstable();
+            let (lo, hi) = sorted.split_at(sorted.len() / 2);
+            (0..n).map(|i| if (i / 4096) % 2 == 0 { *rng.pick(lo) } else { *rng.pick(hi) }).collect()
+        }
+        _ => {
+            let zero = codes.iter().copied().min().unwrap();
+            let mut v = vec![zero; n];
+            if n > 0 {
+                v[0] = pick_nz(rng);
+                v[n - 1] = pick_nz(rng);
+            }
+            v
+        }
+    }
+}
